@@ -50,7 +50,9 @@ class Gen:
             return {"*": [frac(r, 6), {"+": ["1", {"*": ["1/256", {"c": r.randrange(ncomp)}]}]}]}
         return frac(r)
 
-    def params_values(self):
+    def params_values(self, small=False):
+        if small:
+            return {k: frac(self.rng, 3) for k in PARAMS}
         return {k: dy(self.rng, 1, 16, 3) for k in PARAMS}
 
     # ------------------------------------------------------------------ programs
@@ -77,6 +79,8 @@ class Gen:
         kinds_nonlin = want.get("nonlinear", r.random() < 0.6)
         kind_pool = ["transition", "transition", "death", "importation", "absolute", "crude_birth",
                      "replacement_birth"]
+        if "kind_pool" in want:
+            kind_pool = list(want["kind_pool"])
         if kinds_nonlin:
             inf_kind = r.choice(["infection_frequency", "infection_frequency", "infection_density"])
             kind_pool += [inf_kind, inf_kind]
@@ -109,7 +113,7 @@ class Gen:
             ops.append(o)
             flow_names.append(name)
             meta["flows"].append(kind)
-        if r.random() < 0.3:
+        if r.random() < want.get("p_udeath", 0.3):
             nm = "ud"
             ops.append({"op": "udeath", "name": nm, "param": self.rate(allow_time=False)})
             flow_names.append(nm)
@@ -166,6 +170,8 @@ class Gen:
             fadj = []
             if not want.get("unadjusted", False):
                 for fn in sorted(set(flow_names)):
+                    if fn in want.get("never_adjust", ()):
+                        continue
                     if r.random() < 0.35:
                         adjs = {}
                         for s in strata:
@@ -211,7 +217,7 @@ class Gen:
             strat_strata[name] = strata
             meta["strats"].append(kind + ("" if scomps == list(comps) else "-partial"))
             # flows added after stratification
-            if r.random() < 0.25:
+            if r.random() < want.get("p_post", 0.25):
                 s, d = r.sample(comps, 2)
                 filt = {name: r.choice(strata)}
                 o2 = {"op": "flow", "kind": "transition", "name": "post%d" % k, "param": frac(r), "src": s, "dst": d}
